@@ -9,8 +9,10 @@ from ..core import AnalysisError, norm
 from .. import symx, spec, aud
 from ..aud import REL, W
 from ..symx import Tx, E, I, S, is_zero, fmt_cond, c_and, c_or, c_not, cond_atoms, rows, eval_cond, val_atoms, eval_val
+from ..canon import structure_continues, expand_locals
 from ..astutil import walk_local, stores, parent, ancestors
 from . import c04, c06, c18
+from ..canon import _dc
 
 RU = "shangrla/raire/raire_utils.py"
 RA = "shangrla/raire/raire.py"
@@ -142,54 +144,82 @@ def r2(chk):
            "audit-side reader: the token in column j >= 2 (the (j-1)-th listed candidate) gets rank j - 1: ranks are 1-based", node=fr,
            start_column_and_shift=base_core)
     # ---- generator reader: prefs = toks[2:]; idx = prefs.index(c)
-    lr = chk.fn(RU, "load_contests_from_raire")
-    # roles in the ballot loop, discovered from structure: the loop `for l in range(<n>+1, len(<lines>))`,
-    # TOKS = the per-line token list, PREFS = TOKS[2:], the ballot dict receiving PREFS.index(cand)
+    lr = chk.fn(RU, "load_contests_from_raire", canonical=True)
+    # the ballot loop `for l in range(<n>+1, len(<lines>))`; every query below is made on expressions with the temporaries
+    # expanded (canon.expand_locals), so the reader may name its columns or not, and may build the ballot dict by a loop or a
+    # comprehension (the canonical form turns the loop into the comprehension)
     hdr = [l for l in ast.walk(lr) if isinstance(l, ast.For) and isinstance(l.iter, ast.Call) and norm(l.iter.func) == "range" and len(l.iter.args) == 2
            and isinstance(l.iter.args[1], ast.Call) and norm(l.iter.args[1].func) == "len"]
     ok_p = ok_i = ok = body_ok = ok_merge = False
     if len(hdr) == 1:
         L = hdr[0]
         lines = norm(L.iter.args[1].args[0])
-        loc = {norm(a.targets[0]): a.value for a in L.body if isinstance(a, ast.Assign) and isinstance(a.targets[0], ast.Name)}
-        sl = [(k, v) for k, v in loc.items() if isinstance(v, ast.Subscript) and isinstance(v.slice, ast.Slice) and isinstance(v.value, ast.Name)]
-        PREFS, TOKS = (sl[0][0], sl[0][1].value.id) if len(sl) == 1 else (None, None)
-        ok_p = PREFS is not None and norm(loc[PREFS]) == f"{TOKS}[2:]" and TOKS in loc and f"{lines}[{norm(L.target)}]" in norm(loc[TOKS]) \
-            and ".split(',')" in norm(loc[TOKS])
-        BALLOT = None
-        for s0 in ast.walk(L):
-            if isinstance(s0, ast.Assign) and isinstance(s0.targets[0], ast.Subscript) and isinstance(s0.targets[0].value, ast.Name) \
-                    and isinstance(s0.targets[0].slice, ast.Name):
-                cand = s0.targets[0].slice.id
-                v = s0.value
-                vdefs = {norm(a.targets[0]): norm(a.value) for a in ast.walk(L) if isinstance(a, ast.Assign) and isinstance(a.targets[0], ast.Name)}
-                if vdefs.get(norm(v), norm(v)) == f"{PREFS}.index({cand})":
-                    BALLOT = s0.targets[0].value.id
-                    g = [a for a in ancestors(s0) if isinstance(a, ast.If)]
-                    ok_i = any(norm(a.test) == f"{cand}in{PREFS}" for a in g) and norm(loc.get(BALLOT, ast.Constant(value=0))) == "{}"
+        lv = norm(L.target)
+        def X(e):
+            """the expanded expression; a column of the line's token list is rendered as TOK[<slice>]"""
+            x = expand_locals(e, lr, stop=(lv, lines))
+
+            class R(ast.NodeTransformer):
+                def visit_Subscript(self, n):
+                    n = self.generic_visit(n)
+                    b = n.value
+                    if isinstance(b, ast.ListComp) and len(b.generators) == 1 and not b.generators[0].ifs \
+                            and norm(b.elt) in (f"{norm(b.generators[0].target)}.strip()", norm(b.generators[0].target)):
+                        b = b.generators[0].iter
+                    bt = norm(b)
+                    if bt in (f"{lines}[{lv}].strip().split(',')", f"{lines}[{lv}].split(',')", f"{lines}[{lv}].rstrip().split(',')"):
+                        return ast.Subscript(value=ast.Name(id="TOK", ctx=ast.Load()), slice=n.slice, ctx=ast.Load())
+                    return n
+            return norm(ast.fix_missing_locations(R().visit(x)))
+        is_tok = lambda txt, k: txt == f"TOK{k}"
+        dcs = [d for d in ast.walk(L) if isinstance(d, ast.DictComp) and isinstance(d.value, ast.Call) and isinstance(d.value.func, ast.Attribute)
+               and d.value.func.attr == "index"]
+        BALLOT_DC = None
+        if len(dcs) == 1 and len(dcs[0].generators) == 1:
+            d = dcs[0]
+            g = d.generators[0]
+            cand = norm(g.target)
+            recv = X(d.value.func.value)
+            ok_p = is_tok(recv, "[2:]")
+            ok_i = norm(d.key) == cand and [norm(a_) for a_ in d.value.args] == [cand] and len(g.ifs) == 1 \
+                and isinstance(g.ifs[0], ast.Compare) and len(g.ifs[0].ops) == 1 and isinstance(g.ifs[0].ops[0], ast.In) \
+                and norm(g.ifs[0].left) == cand and X(g.ifs[0].comparators[0]) == recv
+            BALLOT_DC = d
         # header skipping: range(<n>+1, len(lines)) with <n> = int(lines[0])
-        a0 = L.iter.args[0]
-        nname = None
-        if isinstance(a0, ast.BinOp) and isinstance(a0.op, ast.Add):
-            parts = [a0.left, a0.right]
-            names = [x for x in parts if isinstance(x, ast.Name)]
-            ones = [x for x in parts if isinstance(x, ast.Constant) and x.value == 1]
-            if len(names) == 1 and len(ones) == 1:
-                nname = names[0].id
-        nc = [s0 for s0 in ast.walk(lr) if isinstance(s0, ast.Assign) and nname and norm(s0.targets[0]) == nname]
-        ok = len(nc) == 1 and norm(nc[0].value) == f"int({lines}[0])"
-        CID = next((k for k, v in loc.items() if norm(v) == f"{TOKS}[0]"), None)
-        BID = next((k for k, v in loc.items() if norm(v) == f"{TOKS}[1]"), None)
-        body_ok = CID is not None and BID is not None
-        # repeated ballot ids merge contests
+        a0 = expand_locals(L.iter.args[0], lr, stop=(lines,))
+        ok = symx.equivalent(Tx().expr(a0), Tx().expr(ast.parse(f"int({lines}[0]) + 1", mode="eval").body))[0]
+        # repeated ballot ids merge contests:  if bid not in S: S[bid] = {cid: ballot} else: S[bid][cid] = ballot,
+        # or S.setdefault(bid, {})[cid] = ballot -- with bid = column 1, cid = column 0 and ballot = that dict
+        def is_ballot(e):
+            return BALLOT_DC is not None and ast.dump(expand_locals(e, lr, stop=(lv, lines))) == ast.dump(expand_locals(BALLOT_DC, lr, stop=(lv, lines)))
+        for st_ in ast.walk(L):
+            if isinstance(st_, ast.Assign) and len(st_.targets) == 1 and isinstance(st_.targets[0], ast.Subscript):
+                t = st_.targets[0]
+                if isinstance(t.value, ast.Call) and isinstance(t.value.func, ast.Attribute) and t.value.func.attr == "setdefault" \
+                        and len(t.value.args) == 2 and norm(t.value.args[1]) == "{}":
+                    if is_tok(X(t.value.args[0]), "[1]") and is_tok(X(t.slice), "[0]") and is_ballot(st_.value) and parent(st_) is L:
+                        ok_merge = body_ok = True
         for i in [x for x in ast.walk(L) if isinstance(x, ast.If)]:
-            t = i.test
-            tt = norm(t)
-            if BID and (tt.startswith(f"not{BID}in") or tt.startswith(f"{BID}notin")):
-                store = tt.split("in", 1)[1] if tt.startswith(f"not{BID}in") else tt.split("notin", 1)[1]
-                a = [norm(x) for x in i.body]
-                b = [norm(x) for x in i.orelse]
-                ok_merge = a == [f"{store}[{BID}]={{{CID}:{BALLOT}}}"] and b == [f"{store}[{BID}][{CID}]={BALLOT}"]
+            c = Tx().cond(i.test)
+            if c in (True, False) or len(i.body) != 1 or len(i.orelse) != 1:
+                continue
+            neg = c[0] == "not"
+            atom = c[1] if neg else c
+            if not (isinstance(atom, tuple) and atom[0] == "atom" and atom[1].startswith("in(")):
+                continue
+            absent, present = (i.body[0], i.orelse[0]) if neg else (i.orelse[0], i.body[0])
+            cmp_ = i.test.operand if isinstance(i.test, ast.UnaryOp) else i.test
+            if not (isinstance(cmp_, ast.Compare) and is_tok(X(cmp_.left), "[1]")):
+                continue
+            store = norm(cmp_.comparators[0])
+            if isinstance(absent, ast.Assign) and isinstance(present, ast.Assign) and isinstance(absent.value, ast.Dict) and len(absent.value.keys) == 1:
+                ta, tp = absent.targets[0], present.targets[0]
+                good_a = isinstance(ta, ast.Subscript) and norm(ta.value) == store and is_tok(X(ta.slice), "[1]") \
+                    and is_tok(X(absent.value.keys[0]), "[0]") and is_ballot(absent.value.values[0])
+                good_p = isinstance(tp, ast.Subscript) and isinstance(tp.value, ast.Subscript) and norm(tp.value.value) == store \
+                    and is_tok(X(tp.value.slice), "[1]") and is_tok(X(tp.slice), "[0]") and is_ballot(present.value)
+                if good_a and good_p and parent(i) is L:
+                    ok_merge = body_ok = True
     chk.ob("C14.R2", f"{RU}:load_contests_from_raire", "raire-index=k-1", ok_p and ok_i,
            "generator-side reader: the token in column j >= 2 gets index j - 2 (its position in toks[2:]), only listed candidates are "
            "recorded in a fresh dict per line: indices are 0-based, so core rank = generator index + 1 for every ballot", node=lr)
@@ -294,30 +324,39 @@ def r3(chk):
 
 
 def loop_skeleton(fn):
-    """exists-early-return skeleton: pre-guards (returning 0), the loop (collection, skip tests, kill test), final return.
-       -> dict or None"""
-    body = list(fn.body)
-    body = [s for s in body if not (isinstance(s, ast.Expr) and isinstance(s.value, ast.Constant))]
+    """exists-early-return skeleton: pre-guards (returning 0), the loop, final return.  The body of the loop is summarised as one
+    term by iteration_term, so it may spell its skips and its early return with `continue` guards, a merged condition or
+    named temporaries alike.  -> dict or None"""
     loops = [x for x in ast.walk(fn) if isinstance(x, ast.For)]
     if len(loops) != 1:
         return None
     l = loops[0]
-    skips, kills = [], []
-    for s in l.body:
-        if isinstance(s, ast.If) and len(s.body) == 1 and isinstance(s.body[0], ast.Continue) and not s.orelse:
-            skips.append(s.test)
-        elif isinstance(s, ast.If) and len(s.body) == 1 and isinstance(s.body[0], ast.Return) and not s.orelse:
-            kills.append((s.test, norm(s.body[0].value)))
-        elif isinstance(s, ast.Assign):
-            continue
-        else:
-            return None
+    if l.orelse or any(isinstance(x, ast.Break) for x in ast.walk(l)):
+        return None
     # statements after the loop in its block
     blk = parent(l)
     lst = blk.body if l in blk.body else blk.orelse
     after = lst[lst.index(l) + 1:]
     fin = norm(after[0].value) if len(after) == 1 and isinstance(after[0], ast.Return) else None
-    return dict(loop=l, skips=skips, kills=kills, final=fin)
+    return dict(loop=l, final=fin)
+
+
+CONT = "__next_iteration__"
+
+
+def iteration_term(l, tx):
+    """one iteration of the loop as a term: the value returned from inside the body, or the symbol CONT when the iteration ends
+    without returning (falls off the end or continues)"""
+    body = structure_continues(l.body)
+    if body is None:
+        return None
+    body = body + [ast.Return(value=ast.Name(id=CONT, ctx=ast.Load()))]
+    for b in body:
+        ast.fix_missing_locations(b)
+    try:
+        return tx.block(body)
+    except symx.Unsupported:
+        return None
 
 
 def r4(chk):
@@ -326,13 +365,10 @@ def r4(chk):
     sk = loop_skeleton(core)
     ok = False
     detail = {}
-    if sk and sk["final"] == "1" and len(sk["kills"]) == 1 and sk["kills"][0][1] == "0":
+    if sk and sk["final"] == "1":
         l = sk["loop"]
         a = norm(l.target)
         tx = Tx()
-        for s in l.body:
-            if isinstance(s, ast.Assign) and isinstance(s.targets[0], ast.Name):
-                tx._assign(s.targets[0], tx.expr(s.value))
         # rank_cand is bound by a walrus in the guard
         for ne in ast.walk(core):
             if isinstance(ne, ast.NamedExpr) and isinstance(ne.value, ast.Call) and norm(ne.value.func) == "self.get_vote_for":
@@ -341,18 +377,17 @@ def r4(chk):
             if isinstance(st0, ast.Assign) and isinstance(st0.targets[0], ast.Name) and isinstance(st0.value, ast.Call) \
                     and norm(st0.value.func) == "self.get_vote_for":
                 tx.env.setdefault(st0.targets[0].id, Tx().expr(st0.value))
-        kill = tx.cond(sk["kills"][0][0])
+        it = iteration_term(l, tx)
         ga, gc = f"self.get_vote_for(contest_id, {a})", "self.get_vote_for(contest_id, cand)"
-        want_kill = c_and(("atom", f"truthy({ga})"), c_not(("atom", f"lt({gc},{ga})")))
-        okk = aud.cond_equiv(kill, want_kill)[0]
-        oks = len(sk["skips"]) == 1 and aud.cond_equiv(Tx().cond(sk["skips"][0]), spec.cond_term(f"{a} == cand"))[0]
+        want_kill = c_and(c_not(spec.cond_term(f"{a} == cand")), ("atom", f"truthy({ga})"), c_not(("atom", f"lt({gc},{ga})")))
+        okk = it is not None and symx.equivalent(it, I(want_kill, E(sp.Integer(0)), E(S(CONT))))[0]
         okc = norm(l.iter) == "remaining"
         # pre-guards: cand not in remaining -> 0 ; unranked cand -> 0  (translate the function with the loop abstracted away)
         pre = _pre_guards(core, l)
         want_pre = c_or(c_not(("atom", "in(cand,remaining)")), c_not(("atom", f"truthy({gc})")))
         okp = pre is not None and aud.cond_equiv(pre, want_pre)[0]
-        ok = okk and oks and okc and okp
-        detail = dict(collection=norm(l.iter), skip=[norm(s) for s in sk["skips"]], kill=fmt_cond(kill), zero_guards=fmt_cond(pre) if pre is not None else None)
+        ok = okk and okc and okp
+        detail = dict(collection=norm(l.iter), iteration=repr(it)[:300], zero_guards=fmt_cond(pre) if pre is not None else None)
     chk.ob("C14.R4", W("CVR.rcv_votefor_cand"), "nen-form[audit]", ok,
            "audit side: 1 iff cand is in `remaining`, is ranked, and no other candidate of `remaining` is ranked at or before it "
            "(exists-early-return loop over `remaining`)", node=core, **detail)
@@ -361,7 +396,7 @@ def r4(chk):
     sk = loop_skeleton(rai)
     ok = False
     detail = {}
-    if sk and sk["final"] == "1" and len(sk["kills"]) == 1 and sk["kills"][0][1] == "0":
+    if sk and sk["final"] == "1":
         l = sk["loop"]
         okc = norm(l.iter) == "ballot.items()" and isinstance(l.target, ast.Tuple)
         if okc:
@@ -370,18 +405,15 @@ def r4(chk):
             for s in rai.body:
                 if isinstance(s, ast.Assign) and isinstance(s.targets[0], ast.Name):
                     tx._assign(s.targets[0], tx.expr(s.value))
-            kill = tx.cond(sk["kills"][0][0])
+            it = iteration_term(l, tx)
             ic = "ranking(cand, ballot)"
-            want_kill = ("atom", f"lt({ai},{ic})")
-            okk = aud.cond_equiv(kill, want_kill)[0]
-            sk_conds = [Tx().cond(s) for s in sk["skips"]]
-            want_sk = [spec.cond_term(f"{a} == cand"), spec.cond_term(f"{a} in eliminated")]
-            oks = len(sk_conds) == 2 and all(any(aud.cond_equiv(c, w)[0] for c in sk_conds) for w in want_sk)
+            want_kill = c_and(c_not(spec.cond_term(f"{a} == cand")), c_not(spec.cond_term(f"{a} in eliminated")), ("atom", f"lt({ai},{ic})"))
+            okk = it is not None and symx.equivalent(it, I(want_kill, E(sp.Integer(0)), E(S(CONT))))[0]
             pre = _pre_guards(rai, l)
             want_pre = c_or(("atom", "in(cand,eliminated)"), ("atom", f"eq(-1,{ic})"))
             okp = pre is not None and aud.cond_equiv(pre, want_pre)[0]
-            ok = okk and oks and okp
-            detail = dict(collection=norm(l.iter), skip=[norm(s) for s in sk["skips"]], kill=fmt_cond(kill), zero_guards=fmt_cond(pre) if pre is not None else None)
+            ok = okk and okp
+            detail = dict(collection=norm(l.iter), iteration=repr(it)[:300], zero_guards=fmt_cond(pre) if pre is not None else None)
     chk.ob("C14.R4", f"{RU}:vote_for_cand", "nen-form[generator]", ok,
            "generator side: 1 iff cand is not eliminated, is ranked, and no other non-eliminated candidate on the ballot has a smaller index "
            "(exists-early-return loop over the ballot)", node=rai, **detail)
@@ -426,7 +458,7 @@ def _pre_guards(fn, loop):
     # replace the loop (and what follows in its block) by `return REACHED`
     import copy
 
-    f2 = copy.deepcopy(fn)
+    f2 = _dc(fn)
     target_line = loop.lineno
 
     class R(ast.NodeTransformer):
